@@ -870,7 +870,39 @@ func c15Run(t *rapid.T, tt *testing.T, st *vstats.Collector, tpl []byte,
 			}
 			ev := &c15Event{kind: "batch"}
 			var descs []string
+			inBatch := make(map[invpkg.CircuitKey]bool)
 			for j := 0; j < n; j++ {
+				// A slot is a queued HTLC or, now and then, the
+				// replay of one sent earlier (a link that
+				// restarted while its peers keep forwarding).
+				if len(m.sent) > 0 &&
+					c15Pick(t, "batchReplay", 78, 22) == 1 {
+
+					s := m.sent[rapid.IntRange(
+						0, len(m.sent)-1,
+					).Draw(t, "replayIdx")]
+					if inBatch[s.key] {
+						continue
+					}
+					if m.replayHitsPrecheck(s) &&
+						vstats.IsKnown(c15KeyReplayPrecheck) {
+
+						st.Known(c15KeyReplayPrecheck)
+						st.Count("excluded_known", 1)
+
+						continue
+					}
+					inBatch[s.key] = true
+					s.sends = append(s.sends, m.height)
+					ev.shards = append(ev.shards, s)
+					ev.heights = append(ev.heights, m.height)
+					descs = append(descs, "replay "+s.String())
+
+					continue
+				}
+				if len(m.pending) == 0 {
+					continue
+				}
 				i := 0
 				if c15Pick(t, "sendOrder", 60, 40) == 1 {
 					i = rapid.IntRange(0, len(m.pending)-1).Draw(
@@ -880,12 +912,16 @@ func c15Run(t *rapid.T, tt *testing.T, st *vstats.Collector, tpl []byte,
 				s := m.pending[i]
 				m.pending = append(m.pending[:i], m.pending[i+1:]...)
 				m.fix(s)
+				inBatch[s.key] = true
 				s.sends = append(s.sends, m.height)
 				m.plans[s.plan].unsent--
 				m.sent = append(m.sent, s)
 				ev.shards = append(ev.shards, s)
 				ev.heights = append(ev.heights, m.height)
 				descs = append(descs, s.String())
+			}
+			if len(ev.shards) == 0 {
+				continue
 			}
 			ev.desc = "batch " + strings.Join(descs, " || ")
 			m.exec(t, ev, nil, false)
